@@ -366,4 +366,392 @@ theorem preinvLoop_eq (d : Nat) (h1 : B / 2 ≤ d) (h2 : d < B) (ms : List Nat) 
     rw [preinvLoop_cons, plainLoop_cons, udiv_qrnnd_preinv_eq r n0 d h1 h2 hr h0, ih _ hr' hns]
 
 
+/-! ### shifts and count_leading_zeros -/
+
+theorem B_eq_pow : B = 2 ^ 64 := rfl
+
+theorem B_split (s : Nat) (hs : s ≤ 64) : B = 2 ^ (64 - s) * 2 ^ s := by
+  rw [← pow_add, B_eq_pow]; congr 1; omega
+
+theorem clz_spec (d : Nat) (hd0 : d ≠ 0) (hdB : d < B) :
+    count_leading_zeros d ≤ 63 ∧ B / 2 ≤ d * 2 ^ count_leading_zeros d ∧ d * 2 ^ count_leading_zeros d < B := by
+  unfold count_leading_zeros
+  have h1 := Nat.log2_self_le hd0
+  have h2 := @Nat.lt_log2_self d
+  have h3 : d.log2 < 64 := (Nat.log2_lt hd0).mpr hdB
+  generalize d.log2 = k at *
+  refine ⟨by omega, ?_, ?_⟩
+  · have : B / 2 = 2 ^ k * 2 ^ (63 - k) := by
+      rw [← pow_add]; have : k + (63 - k) = 63 := by omega
+      rw [this]; rfl
+    rw [this]; exact Nat.mul_le_mul_right _ h1
+  · have : B = 2 ^ (k + 1) * 2 ^ (63 - k) := by
+      rw [← pow_add]; have : k + 1 + (63 - k) = 64 := by omega
+      rw [this]; rfl
+    rw [this]; exact Nat.mul_lt_mul_of_pos_right h2 (by positivity)
+
+/-- splitting a limb at bit 64-s: high part (as computed by `(l >> (63-s)) >> 1`), low part shifted up. -/
+theorem limb_split (l s : Nat) (hs : s ≤ 63) :
+    (l >>> (63 - s)) >>> 1 = l / 2 ^ (64 - s) ∧ (l <<< s) % B = (l % 2 ^ (64 - s)) * 2 ^ s := by
+  constructor
+  · rw [Nat.shiftRight_eq_div_pow, Nat.shiftRight_eq_div_pow, Nat.div_div_eq_div_mul, ← pow_succ]
+    congr 2; omega
+  · rw [Nat.shiftLeft_eq, B_split s (by omega), Nat.mul_mod_mul_right]
+
+theorem limb_split_sum (l s : Nat) (hs : s ≤ 64) :
+    (l / 2 ^ (64 - s)) * B + (l % 2 ^ (64 - s)) * 2 ^ s = l * 2 ^ s := by
+  have h := Nat.div_add_mod l (2 ^ (64 - s))
+  rw [B_split s hs]
+  generalize l / 2 ^ (64 - s) = a at *
+  generalize l % 2 ^ (64 - s) = b at *
+  generalize 2 ^ (64 - s) = T at *
+  rw [← h]; ring
+
+theorem limb_hi_lt (l s : Nat) (hl : l < B) (hs : s ≤ 64) : l / 2 ^ (64 - s) < 2 ^ s := by
+  rw [Nat.div_lt_iff_lt_mul (by positivity), Nat.mul_comm, ← B_split s hs]; exact hl
+
+/-- `(a << s) mod B | (b >> (64-s))` is a sum -/
+theorem shl_or (a b s : Nat) (hb : b < B) (hs1 : 1 ≤ s) (hs : s ≤ 63) :
+    ((a <<< s) % B) ||| (b >>> (64 - s)) = (a % 2 ^ (64 - s)) * 2 ^ s + b / 2 ^ (64 - s) := by
+  rw [(limb_split a s hs).2, Nat.shiftRight_eq_div_pow, ← Nat.shiftLeft_eq]
+  exact (Nat.shiftLeft_add_eq_or_of_lt (limb_hi_lt b s hb (by omega)) _).symm
+
+/-- cancelling the normalisation shift from a division identity -/
+theorem unshift_div (X Q d rf s : Nat) (h : X * 2 ^ s = Q * (d * 2 ^ s) + rf) (hr : rf < d * 2 ^ s) :
+    X = Q * d + rf / 2 ^ s ∧ rf / 2 ^ s < d ∧ rf / 2 ^ s * 2 ^ s = rf := by
+  have hp : 0 < 2 ^ s := by positivity
+  have hdvd : 2 ^ s ∣ rf := by
+    have h1 : 2 ^ s ∣ X * 2 ^ s := Dvd.intro_left _ rfl
+    have h2 : 2 ^ s ∣ Q * (d * 2 ^ s) := ⟨Q * d, by ring⟩
+    rw [h] at h1
+    exact (Nat.dvd_add_right h2).mp h1
+  obtain ⟨k, rfl⟩ := hdvd
+  rw [Nat.mul_div_cancel_left _ hp]
+  refine ⟨?_, ?_, by ring⟩
+  · have : X * 2 ^ s = (Q * d + k) * 2 ^ s := by rw [h]; ring
+    exact Nat.eq_of_mul_eq_mul_right hp this
+  · have : 2 ^ s * k < 2 ^ s * d := by rw [Nat.mul_comm (2 ^ s) d]; exact hr
+    exact Nat.lt_of_mul_lt_mul_left this
+
+
+/-! ### mpn_divrem_euclidean_qr_1 -/
+
+theorem euclidLoop_cons (d i s l : Nat) (ls : List Nat) (r : Nat) :
+    euclidLoop d i s (l :: ls) r =
+      ((udiv_qrnnd_preinv ((((l >>> (63 - s)) >>> 1) + r) % B) ((l <<< s) % B) d i).1 ::
+        (euclidLoop d i s ls (udiv_qrnnd_preinv ((((l >>> (63 - s)) >>> 1) + r) % B) ((l <<< s) % B) d i).2).1,
+       (euclidLoop d i s ls (udiv_qrnnd_preinv ((((l >>> (63 - s)) >>> 1) + r) % B) ((l <<< s) % B) d i).2).2) := rfl
+
+/-- one step of the on-the-fly-shift loop equals one plain division step of the unshifted problem -/
+theorem euclid_step (d0 s l r0 : Nat) (hs : s ≤ 63) (h1 : B / 2 ≤ d0 * 2 ^ s) (h2 : d0 * 2 ^ s < B)
+    (hr : r0 < d0) (hl : l < B) :
+    udiv_qrnnd_preinv ((((l >>> (63 - s)) >>> 1) + r0 * 2 ^ s) % B) ((l <<< s) % B) (d0 * 2 ^ s) (invert_limb (d0 * 2 ^ s))
+      = ((udiv_qrnnd r0 l d0).1, (udiv_qrnnd r0 l d0).2 * 2 ^ s) := by
+  obtain ⟨e1, e2⟩ := limb_split l s hs
+  have hh := limb_hi_lt l s hl (by omega)
+  have hsum := limb_split_sum l s (by omega)
+  rw [e1, e2]
+  have hp : 0 < 2 ^ s := by positivity
+  have hlt : l / 2 ^ (64 - s) + r0 * 2 ^ s < d0 * 2 ^ s := by
+    have : (r0 + 1) * 2 ^ s ≤ d0 * 2 ^ s := Nat.mul_le_mul_right _ hr
+    have : (r0 + 1) * 2 ^ s = r0 * 2 ^ s + 2 ^ s := by ring
+    omega
+  rw [Nat.mod_eq_of_lt (by omega)]
+  have hlo : l % 2 ^ (64 - s) * 2 ^ s < B := by
+    rw [B_split s (by omega)]
+    exact Nat.mul_lt_mul_of_pos_right (Nat.mod_lt _ (by positivity)) hp
+  rw [udiv_qrnnd_preinv_eq _ _ _ h1 h2 hlt hlo, udiv_qrnnd_eq _ _ _ hlt hlo, udiv_qrnnd_eq _ _ _ hr hl]
+  have : (l / 2 ^ (64 - s) + r0 * 2 ^ s) * B + l % 2 ^ (64 - s) * 2 ^ s = (r0 * B + l) * 2 ^ s := by
+    have : (r0 * B + l) * 2 ^ s = r0 * 2 ^ s * B + l * 2 ^ s := by ring
+    rw [this, ← hsum]; ring
+  rw [this, Nat.mul_div_mul_right _ _ hp, Nat.mul_mod_mul_right]
+
+theorem euclidLoop_eq (d0 s : Nat) (hs : s ≤ 63) (h1 : B / 2 ≤ d0 * 2 ^ s) (h2 : d0 * 2 ^ s < B) (ls : List Nat) :
+    ∀ r0, r0 < d0 → Limbs ls →
+    euclidLoop (d0 * 2 ^ s) (invert_limb (d0 * 2 ^ s)) s ls (r0 * 2 ^ s) =
+      ((plainLoop d0 ls r0).1, (plainLoop d0 ls r0).2 * 2 ^ s) := by
+  induction ls with
+  | nil => intro r0 _ _; rfl
+  | cons l ls ih =>
+    intro r0 hr hl
+    have ⟨h0, hls⟩ := Limbs_cons.mp hl
+    rw [euclidLoop_cons, euclid_step d0 s l r0 hs h1 h2 hr h0, plainLoop_cons]
+    simp only
+    rw [ih _ (udiv_qrnnd_spec2 r0 l d0 hr) hls]
+
+/-- mpn_divrem_euclidean_qr_1 is the plain schoolbook loop -/
+theorem divrem_euclidean_qr_1_eq (x : List Nat) (d : Nat) (hx : Limbs x) (hd0 : d ≠ 0) (hdB : d < B) :
+    divrem_euclidean_qr_1 x d = ((plainLoop d x.reverse 0).1.reverse, (plainLoop d x.reverse 0).2) := by
+  obtain ⟨hs, h1, h2⟩ := clz_spec d hd0 hdB
+  unfold divrem_euclidean_qr_1
+  simp only
+  rw [Nat.shiftLeft_eq, Nat.mod_eq_of_lt h2]
+  have := euclidLoop_eq d _ hs h1 h2 x.reverse 0 (by omega) (Limbs_reverse hx)
+  rw [Nat.zero_mul] at this
+  rw [this]
+  simp only
+  rw [Nat.shiftRight_eq_div_pow, Nat.mul_div_cancel _ (by positivity)]
+
+
+/-! ### the shifted limb stream of the unnormalised loops -/
+
+/-- limbs fed by the unnormalised loops: (n1<<s)|(n0>>(64-s)), ..., last = n1<<s -/
+def shl (s : Nat) : Nat → List Nat → List Nat
+  | n1, [] => [(n1 % 2 ^ (64 - s)) * 2 ^ s]
+  | n1, n0 :: ns => ((n1 % 2 ^ (64 - s)) * 2 ^ s + n0 / 2 ^ (64 - s)) :: shl s n0 ns
+
+theorem unnormLoop_nil (d di s n1 r : Nat) :
+    unnormLoop d di s n1 [] r =
+      ([(udiv_qrnnd_preinv r ((n1 <<< s) % B) d di).1], (udiv_qrnnd_preinv r ((n1 <<< s) % B) d di).2) := rfl
+
+theorem unnormLoop_cons (d di s n1 n0 : Nat) (ns : List Nat) (r : Nat) :
+    unnormLoop d di s n1 (n0 :: ns) r =
+      ((udiv_qrnnd_preinv r (((n1 <<< s) % B) ||| (n0 >>> (64 - s))) d di).1 ::
+        (unnormLoop d di s n0 ns (udiv_qrnnd_preinv r (((n1 <<< s) % B) ||| (n0 >>> (64 - s))) d di).2).1,
+       (unnormLoop d di s n0 ns (udiv_qrnnd_preinv r (((n1 <<< s) % B) ||| (n0 >>> (64 - s))) d di).2).2) := rfl
+
+theorem unnormLoop_eq (d di s : Nat) (hs1 : 1 ≤ s) (hs : s ≤ 63) (rest : List Nat) :
+    ∀ n1 r, Limbs rest → unnormLoop d di s n1 rest r = preinvLoop d di (shl s n1 rest) r := by
+  induction rest with
+  | nil =>
+    intro n1 r _
+    rw [unnormLoop_nil, (limb_split n1 s hs).2]; rfl
+  | cons n0 ns ih =>
+    intro n1 r hl
+    have ⟨h0, hns⟩ := Limbs_cons.mp hl
+    rw [unnormLoop_cons, shl_or n1 n0 s h0 hs1 hs, ih _ _ hns]; rfl
+
+theorem shl_val (s : Nat) (hs : s ≤ 64) (rest : List Nat) : ∀ n1 A,
+    valMS A (shl s n1 rest) = valMS (A * 2 ^ (64 - s) + n1 % 2 ^ (64 - s)) rest * 2 ^ s := by
+  induction rest with
+  | nil =>
+    intro n1 A
+    show A * B + n1 % 2 ^ (64 - s) * 2 ^ s = (A * 2 ^ (64 - s) + n1 % 2 ^ (64 - s)) * 2 ^ s
+    rw [B_split s hs]; ring
+  | cons n0 ns ih =>
+    intro n1 A
+    show valMS (A * B + (n1 % 2 ^ (64 - s) * 2 ^ s + n0 / 2 ^ (64 - s))) (shl s n0 ns) =
+      valMS ((A * 2 ^ (64 - s) + n1 % 2 ^ (64 - s)) * B + n0) ns * 2 ^ s
+    rw [ih]
+    congr 2
+    have h := Nat.div_add_mod n0 (2 ^ (64 - s))
+    have hB := B_split s hs
+    generalize n0 / 2 ^ (64 - s) = a at *
+    generalize n0 % 2 ^ (64 - s) = b at *
+    generalize n1 % 2 ^ (64 - s) = c at *
+    generalize 2 ^ (64 - s) = T at *
+    rw [← h, hB]; ring
+
+theorem shl_Limbs (s : Nat) (hs : s ≤ 64) (rest : List Nat) : ∀ n1, Limbs rest → Limbs (shl s n1 rest) := by
+  have hp : 0 < 2 ^ s := by positivity
+  have hT : 0 < 2 ^ (64 - s) := by positivity
+  induction rest with
+  | nil =>
+    intro n1 _
+    refine Limbs_cons.mpr ⟨?_, Limbs_nil⟩
+    rw [B_split s hs]; exact Nat.mul_lt_mul_of_pos_right (Nat.mod_lt _ hT) hp
+  | cons n0 ns ih =>
+    intro n1 hl
+    have ⟨h0, hns⟩ := Limbs_cons.mp hl
+    refine Limbs_cons.mpr ⟨?_, ih _ hns⟩
+    have h1 := limb_hi_lt n0 s h0 hs
+    have h2 := Nat.mod_lt n1 hT
+    have hB := B_split s hs
+    generalize n0 / 2 ^ (64 - s) = a at *
+    generalize n1 % 2 ^ (64 - s) = c at *
+    generalize 2 ^ (64 - s) = T at *
+    generalize 2 ^ s = P at *
+    rw [hB]
+    have : (c + 1) * P ≤ T * P := Nat.mul_le_mul_right _ h2
+    have : (c + 1) * P = c * P + P := by ring
+    omega
+
+theorem shl_length (s : Nat) (rest : List Nat) : ∀ n1, (shl s n1 rest).length = rest.length + 1 := by
+  induction rest with
+  | nil => intro _; rfl
+  | cons n0 ns ih => intro n1; show (shl s n0 ns).length + 1 = _; rw [ih]; rfl
+
+/-! ### plain loop: consequences -/
+
+theorem plainLoop_append (d : Nat) (a b : List Nat) : ∀ r,
+    plainLoop d (a ++ b) r =
+      ((plainLoop d a r).1 ++ (plainLoop d b (plainLoop d a r).2).1, (plainLoop d b (plainLoop d a r).2).2) := by
+  induction a with
+  | nil => intro r; rfl
+  | cons x xs ih =>
+    intro r
+    rw [List.cons_append, plainLoop_cons, plainLoop_cons, ih]; rfl
+
+theorem valMS_mod (d : Nat) (l : List Nat) : ∀ a, valMS a l % d = valMS (a % d) l % d := by
+  induction l with
+  | nil => intro a; simp [valMS]
+  | cons x xs ih =>
+    intro a
+    have key : (a * B + x) % d = ((a % d) * B + x) % d := by
+      conv_lhs => rw [Nat.add_mod, Nat.mul_mod]
+      conv_rhs => rw [Nat.add_mod, Nat.mul_mod, Nat.mod_mod]
+    rw [valMS_cons, valMS_cons, ih, ih ((a % d) * B + x), key]
+
+theorem plainLoop_rem (d : Nat) (ms : List Nat) (r : Nat) (hr : r < d) (hl : Limbs ms) :
+    (plainLoop d ms r).2 = valMS r ms % d := by
+  obtain ⟨e, h2, _, _⟩ := plainLoop_spec d ms r 0 hr hl
+  rw [Nat.zero_mul, Nat.zero_add] at e
+  rw [e, Nat.mul_add_mod_self_right, Nat.mod_eq_of_lt h2]
+
+
+/-! ### mpn_mod_1, mpn_preinv_mod_1 -/
+
+theorem HIGHBIT_eq : HIGHBIT = 2 ^ 63 := rfl
+
+theorem and_two_pow' (d n : Nat) (hd : d < 2 ^ (n + 1)) : d &&& 2 ^ n = if 2 ^ n ≤ d then 2 ^ n else 0 := by
+  apply Nat.eq_of_testBit_eq
+  intro i
+  rw [Nat.testBit_and, Nat.testBit_two_pow]
+  have hp : 0 < 2 ^ n := by positivity
+  by_cases hi : n = i
+  · subst hi
+    rw [Nat.testBit_eq_decide_div_mod_eq]
+    have hlt : d / 2 ^ n < 2 := by
+      rw [Nat.div_lt_iff_lt_mul hp, Nat.mul_comm, ← pow_succ]; exact hd
+    split
+    · rename_i h
+      have : 1 ≤ d / 2 ^ n := (Nat.one_le_div_iff hp).mpr h
+      rw [Nat.testBit_two_pow]; simp; omega
+    · rename_i h
+      have : d / 2 ^ n = 0 := Nat.div_eq_of_lt (by omega)
+      simp [this]
+  · simp only [hi, decide_false, Bool.and_false]
+    split
+    · rw [Nat.testBit_two_pow]; simp [hi]
+    · simp
+
+/-- the C test `(d & GMP_LIMB_HIGHBIT) != 0` -/
+theorem highbit_test (d : Nat) (hd : d < B) : (d &&& HIGHBIT != 0) = decide (B / 2 ≤ d) := by
+  rw [HIGHBIT_eq, and_two_pow' d 63 hd]
+  have e : B / 2 = 2 ^ 63 := rfl
+  rw [e]
+  by_cases h : 2 ^ 63 ≤ d
+  · simp only [h, if_true, decide_true]; decide
+  · simp only [h, if_false, decide_false]; decide
+
+/-- first step of the normalised paths: r = top - d if top ≥ d -/
+theorem norm_first (top d : Nat) (htop : top < B) (h1 : B / 2 ≤ d) (h2 : d < B) :
+    (if top ≥ d then (top + B - d) % B else top) = top % d ∧
+    (top + B - (d &&& ((B - (if top ≥ d then 1 else 0)) % B))) % B = top % d ∧
+    (if top ≥ d then 1 else 0) * d + top % d = top := by
+  by_cases h : top ≥ d
+  · have hm : top % d = top - d := by
+      rw [Nat.mod_eq_sub_mod h]; exact Nat.mod_eq_of_lt (by simp only [B_eq] at *; omega)
+    rw [hm]
+    have e1 : (B - 1) % B = B - 1 := Nat.mod_eq_of_lt (by have := B_pos; omega)
+    simp only [h, if_true, e1, and_mask' d h2]
+    simp only [B_eq] at *; omega
+  · have hm : top % d = top := Nat.mod_eq_of_lt (by omega)
+    have e1 : (B - 0) % B = 0 := by simp
+    simp only [h, if_false, e1, Nat.and_zero]
+    simp only [B_eq] at *; omega
+
+theorem mod1Norm_eq (top : Nat) (rest : List Nat) (d : Nat) (htop : top < B) (hrest : Limbs rest)
+    (h1 : B / 2 ≤ d) (h2 : d < B) : mod1Norm top rest d = valMS top rest % d := by
+  obtain ⟨e1, _, _⟩ := norm_first top d htop h1 h2
+  have hd0 : 0 < d := by simp only [B_eq] at h1; omega
+  have hr : top % d < d := Nat.mod_lt _ hd0
+  unfold mod1Norm
+  simp only [e1]
+  rw [valMS_mod]
+  cases rest with
+  | nil => simp [valMS, Nat.mod_eq_of_lt hr]
+  | cons x xs =>
+    simp only [List.isEmpty_cons, Bool.false_eq_true, if_false]
+    split
+    · exact plainLoop_rem d _ _ hr hrest
+    · rw [preinvLoop_eq d h1 h2 _ _ hr hrest]; exact plainLoop_rem d _ _ hr hrest
+
+/-- remainder of a shifted problem -/
+theorem shifted_rem (X d s : Nat) : ((X * 2 ^ s) % (d * 2 ^ s)) >>> s = X % d := by
+  rw [Nat.mul_mod_mul_right, Nat.shiftRight_eq_div_pow, Nat.mul_div_cancel _ (by positivity)]
+
+theorem mod1Unnorm_eq (top : Nat) (rest : List Nat) (d : Nat) (htop : top < B) (hrest : Limbs rest)
+    (hd0 : 0 < d) (hd : d < B / 2) : mod1Unnorm top rest d = valMS top rest % d := by
+  have hdB : d < B := by simp only [B_eq] at *; omega
+  obtain ⟨r, ms, hrm, hr, hms, hval⟩ : ∃ r ms, (if top < d then (top, rest) else (0, top :: rest)) = (r, ms) ∧
+      r < d ∧ Limbs ms ∧ valMS r ms = valMS top rest := by
+    by_cases h : top < d
+    · exact ⟨top, rest, by simp [h], h, hrest, rfl⟩
+    · refine ⟨0, top :: rest, by simp [h], hd0, Limbs_cons.mpr ⟨htop, hrest⟩, ?_⟩
+      rw [valMS_cons, Nat.zero_mul, Nat.zero_add]
+  unfold mod1Unnorm
+  rw [hrm, ← hval]
+  simp only
+  cases ms with
+  | nil => simp [valMS, Nat.mod_eq_of_lt hr]
+  | cons n1 ns =>
+    simp only
+    have ⟨hn1, hns⟩ := Limbs_cons.mp hms
+    split
+    · exact plainLoop_rem d _ _ hr hms
+    · obtain ⟨hs, c1, c2⟩ := clz_spec d (by omega) hdB
+      have hs1 : 1 ≤ count_leading_zeros d := by
+        rcases Nat.eq_zero_or_pos (count_leading_zeros d) with h | h
+        · rw [h] at c1; simp only [B_eq] at *; omega
+        · exact h
+      generalize count_leading_zeros d = s at *
+      rw [Nat.shiftLeft_eq, Nat.mod_eq_of_lt c2, Nat.shiftLeft_eq]
+      have hrs : r * 2 ^ s < d * 2 ^ s := Nat.mul_lt_mul_of_pos_right hr (by positivity)
+      rw [Nat.mod_eq_of_lt (by omega)]
+      have hor : r * 2 ^ s ||| n1 >>> (64 - s) = r * 2 ^ s + n1 / 2 ^ (64 - s) := by
+        rw [Nat.shiftRight_eq_div_pow, ← Nat.shiftLeft_eq]
+        exact (Nat.shiftLeft_add_eq_or_of_lt (limb_hi_lt n1 s hn1 (by omega)) _).symm
+      rw [hor]
+      have hr' : r * 2 ^ s + n1 / 2 ^ (64 - s) < d * 2 ^ s := by
+        have := limb_hi_lt n1 s hn1 (by omega)
+        have : (r + 1) * 2 ^ s ≤ d * 2 ^ s := Nat.mul_le_mul_right _ hr
+        have : (r + 1) * 2 ^ s = r * 2 ^ s + 2 ^ s := by ring
+        omega
+      rw [unnormLoop_eq _ _ s hs1 hs ns _ _ hns, preinvLoop_eq _ c1 c2 _ _ hr' (shl_Limbs s (by omega) ns n1 hns)]
+      rw [plainLoop_rem _ _ _ hr' (shl_Limbs s (by omega) ns n1 hns), shl_val s (by omega)]
+      have : (r * 2 ^ s + n1 / 2 ^ (64 - s)) * 2 ^ (64 - s) + n1 % 2 ^ (64 - s) = r * B + n1 := by
+        have h := Nat.div_add_mod n1 (2 ^ (64 - s))
+        rw [B_split s (by omega)]
+        generalize n1 / 2 ^ (64 - s) = a at *
+        generalize n1 % 2 ^ (64 - s) = b at *
+        generalize 2 ^ (64 - s) = T at *
+        rw [← h]; ring
+      rw [this, shifted_rem, valMS_cons]
+
+theorem mod_1_eq (u : List Nat) (d : Nat) (hu : Limbs u) (hd0 : 0 < d) (hdB : d < B) :
+    mod_1 u d = val u % d := by
+  rw [val_eq_valMS]
+  unfold mod_1
+  have hl := Limbs_reverse hu
+  cases h : u.reverse with
+  | nil => simp [valMS]
+  | cons top rest =>
+    rw [h] at hl
+    have ⟨htop, hrest⟩ := Limbs_cons.mp hl
+    simp only
+    rw [highbit_test d hdB, valMS_cons, Nat.zero_mul, Nat.zero_add]
+    by_cases hn : B / 2 ≤ d
+    · simp only [hn, decide_true, if_true]; exact mod1Norm_eq top rest d htop hrest hn hdB
+    · simp only [hn, decide_false, Bool.false_eq_true, if_false]
+      exact mod1Unnorm_eq top rest d htop hrest hd0 (by omega)
+
+theorem preinv_mod_1_eq (u : List Nat) (d : Nat) (hu : Limbs u) (h1 : B / 2 ≤ d) (h2 : d < B) :
+    preinv_mod_1 u d (invert_limb d) = val u % d := by
+  rw [val_eq_valMS]
+  unfold preinv_mod_1
+  have hl := Limbs_reverse hu
+  have hd0 : 0 < d := by simp only [B_eq] at h1; omega
+  cases h : u.reverse with
+  | nil => simp [valMS]
+  | cons top rest =>
+    rw [h] at hl
+    have ⟨htop, hrest⟩ := Limbs_cons.mp hl
+    obtain ⟨e1, _, _⟩ := norm_first top d htop h1 h2
+    have hr : top % d < d := Nat.mod_lt _ hd0
+    simp only [e1]
+    rw [preinvLoop_eq d h1 h2 _ _ hr hrest, plainLoop_rem d _ _ hr hrest, valMS_cons, Nat.zero_mul, Nat.zero_add,
+      ← valMS_mod]
+
+
 end Mpir.DivWord
